@@ -115,6 +115,7 @@ structure Rule where
   er : Bool
   sae : Bool
   bcst : Bool
+  immRev : Bool          -- far pointers (9A / EA): the offset is stored before the selector, i.e. immediates in reverse operand order
   ops : List FormOp
   deriving Repr, Inhabited
 
@@ -272,28 +273,38 @@ def fitsImm (bits sign : Nat) (v : BitVec 64) : Bool :=
 
 def vsibOf (m : MemOp) : RegKind := match m.indexKind with | .xmm => .xmm | .ymm => .ymm | .zmm => .zmm | _ => .none
 
-def altMatches (a : Alt) (o : Operand) : Bool :=
+/-- operand size (bits) an immediate is extended / truncated to, when the form states one -/
+def Rule.oszEff (r : Rule) : Nat :=
+  if r.osz != 0 then r.osz else if (r.space == 0 || r.space == 4) && r.w == 1 then 64 else 0
+
+/-- value range of a sign-extended immediate of an `osz`-bit operation: anything that is an `osz`-bit pattern -/
+def fitsOsz (osz : Nat) (v : BitVec 64) : Bool :=
+  let s := v.toInt
+  decide (-((2 ^ (osz - 1) : Nat) : Int) ≤ s) && decide (s < ((2 ^ osz : Nat) : Int))
+
+def altMatches (osz : Nat) (a : Alt) (o : Operand) : Bool :=
   match a, o with
   | .reg k fx, .reg k' id => k == k' && (match fx with | some f => f == id | Option.none => true)
   | .mem sz vs, .mem m => (match sz with | some s => m.size == s || (m.bcst != 0) | Option.none => true) && vsibOf m == vs
-  | .imm bits sign fx, .imm v => fitsImm bits sign v && (match fx with | some f => v.toNat == f | Option.none => true)
+  | .imm bits sign fx, .imm v => (if sign == 1 && osz != 0 && bits < osz then fitsOsz osz v else fitsImm bits sign v) &&
+      (match fx with | some f => v.toNat == f | Option.none => true)
   | .rel _, .label _ => true
   | .rel _, .imm _ => true
   | _, _ => false
 
-def formOpMatches (f : FormOp) (o : Operand) : Bool := f.alts.any (altMatches · o)
+def formOpMatches (osz : Nat) (f : FormOp) (o : Operand) : Bool := f.alts.any (altMatches osz · o)
 
 /-- aligns the caller's operands with the form's operands: implicit form operands may be left out by the caller -/
-def alignOps : List FormOp → List Operand → Option (List (FormOp × Option Operand))
+def alignOps (osz : Nat) : List FormOp → List Operand → Option (List (FormOp × Option Operand))
   | [], [] => some []
   | [], _ :: _ => Option.none
-  | f :: fs, [] => if f.implicit then (alignOps fs []).map ((f, Option.none) :: ·) else Option.none
+  | f :: fs, [] => if f.implicit then (alignOps osz fs []).map ((f, Option.none) :: ·) else Option.none
   | f :: fs, o :: os =>
-    if formOpMatches f o then
-      match alignOps fs os with
+    if formOpMatches osz f o then
+      match alignOps osz fs os with
       | some r => some ((f, some o) :: r)
-      | Option.none => if f.implicit then (alignOps fs (o :: os)).map ((f, Option.none) :: ·) else Option.none
-    else if f.implicit then (alignOps fs (o :: os)).map ((f, Option.none) :: ·) else Option.none
+      | Option.none => if f.implicit then (alignOps osz fs (o :: os)).map ((f, Option.none) :: ·) else Option.none
+    else if f.implicit then (alignOps osz fs (o :: os)).map ((f, Option.none) :: ·) else Option.none
 
 def segPrefix : Nat → Option Byte
   | 1 => some 0x26 | 2 => some 0x2E | 3 => some 0x36 | 4 => some 0x3E | 5 => some 0x64 | 6 => some 0x65 | _ => Option.none
@@ -459,6 +470,7 @@ def leBytes (v : Nat) : Nat → List Byte
   | n + 1 => BitVec.ofNat 8 v :: leBytes (v / 256) n
 
 /-- which alternative of a form operand is the immediate one (bits) -/
+def immSignOf (f : FormOp) : Nat := f.alts.foldl (fun acc a => match a with | .imm _ s _ => s | _ => acc) 0
 def immBitsOf (f : FormOp) : Nat := f.alts.foldl (fun acc a => match a with | .imm b _ _ => b | .rel b => b | _ => acc) 0
 
 structure Fields where
@@ -473,7 +485,7 @@ structure Fields where
 def checkForm (c : Ctx) (r : Rule) (ops : List Operand) (d : Decor) (bytes : List Byte) : Except String Unit := do
   -- stage 1: the form is available in this mode and the operands instantiate it
   if (if c.mode64 then r.modes &&& 2 else r.modes &&& 1) == 0 then throw "1 form not available in this mode" else
-  let some al := alignOps r.ops ops | throw "1 operands do not instantiate the form"
+  let some al := alignOps r.oszEff r.ops ops | throw "1 operands do not instantiate the form"
   if d.k != 0 && !r.kmask then throw "1 {k} not allowed by the form" else
   if d.z && !r.zmask then throw "1 {z} not allowed by the form" else
   if d.er && !r.er then throw "1 {er} not allowed by the form" else
@@ -582,7 +594,16 @@ def checkForm (c : Ctx) (r : Rule) (ops : List Operand) (d : Decor) (bytes : Lis
           if b.toNat % 16 != v.toNat % 16 then throw s!"6 imm4 {b.toNat % 16}, expected {v.toNat % 16}" else pure ()
         else
           let n := immBytesOf nb
-          let got := (p.imm.drop immPos).take n
+          -- far pointers store their two immediates in reverse operand order
+          let pos := if r.immRev then (if immPos == 0 then r.immBytes - n else 0) else immPos
+          let got := (p.imm.drop pos).take n
+          let osz := r.oszEff
+          if immSignOf f == 1 && osz != 0 && 8 * n < osz then
+            -- sign-extended to the operand size: equal as osz-bit patterns
+            let ext : Int := sextNat (leNat got) (8 * n) % ((2 ^ osz : Nat) : Int)
+            if ext != ((v.toNat % 2 ^ osz : Nat) : Int) then throw s!"6 sign-extended immediate {ext}, expected {v.toNat % 2 ^ osz}" else
+            immPos := immPos + n
+          else
           if got != leBytes v.toNat n then throw s!"6 immediate bytes {repr (got.map (·.toNat))}, expected {repr ((leBytes v.toNat n).map (·.toNat))}" else
           immPos := immPos + n
       | .rel, o =>
